@@ -28,5 +28,8 @@ for r in rows:
 out += ["", "Hand-made mutants (`selftest/mutants/*.patch`, from the properties' `why_tests_cant` and my own list) -- all reported by the quick check of their property:", ""]
 for f in sorted(glob.glob(os.path.join(V, "selftest", "mutants", "*.patch"))):
     out.append("* `%s`" % os.path.basename(f))
+out += ["", "Regression of the quick tier against every confirmed seeded change: `selftest/kill_matrix.py` -> `selftest/KILL_MATRIX.txt`.",
+        "False-alarm test: ten behaviour-preserving refactorings, `selftest/benign/` (`RUNS.txt`: every run rc=0).",
+        "Binding demonstration (a corrupted recorded field / a dropped event is rejected): `selftest/binding_demo.py`."]
 open(os.path.join(V, "selftest", "RESULTS.md"), "w").write("\n".join(out) + "\n")
 print("\n".join(out[:40]))
